@@ -402,6 +402,9 @@ class Census:
             a_, b_ = T.length(args[0]), T.length(args[1])
             if a_ is b_ or (a_.op == "const" and b_.op == "const" and a_.args[1] == b_.args[1]):
                 return "precondition: both slices have length %s" % pp(a_)
+        if name.split("::")[-1] in ("chunks", "chunks_exact", "chunks_mut", "chunks_exact_mut", "rchunks", "rchunks_exact", "windows") and len(args) == 2:
+            if pv.nonzero(args[1], facts):
+                return "precondition: chunk size %s != 0" % pp(args[1])[:80]
         if name.endswith("::unwrap") or name.endswith("::expect"):
             x = args[0]
             vs = ["None", "Some"] if name.startswith("option") else ["Ok", "Err"]
